@@ -127,8 +127,9 @@ def _probe(work, label, base):
     return label, r
 
 
-def model_checks(chk, tier, work):
-    """Returns a list of thunks' results; run inside a thread pool."""
+def model_runs(tier, work):
+    """All TLC runs on the models (no trace involved).  Runs in its own thread; returns the raw results,
+    which model_apply() books into the Check object in the main thread."""
     runs = [("StoreAbsMC", "StoreAbsMC", True, 900, 6, "abs")]
     if tier == "thorough":
         runs.append(("StoreAbsMC", "StoreAbsMCDeep", False, 1700, 6, "abs"))
@@ -149,6 +150,10 @@ def model_checks(chk, tier, work):
                      [ex.submit(_probe, work, lab, "StoreImplQ") for lab in GRAPH_LABELS]
         results = [f.result() for f in fut_runs]
         probes = [f.result() for f in fut_probes]
+    return results, probes
+
+
+def model_apply(chk, results, probes):
     for (mod, cfg, cov, to, w, kind), r in results:
         chk.add_tlc(cfg, r)
         if r.violated:
@@ -192,7 +197,8 @@ def replay_histories(chk, drv, work, tier):
                 ("StoreGenGraph4", "graph", 1, True, 300)]
     else:
         plan = [("StoreGenShape4", "shape", 8, False, 300), ("StoreGenShape6", "shape", 1, False, 900),
-                ("StoreGenGraph5", "graph", 1, True, 900), ("StoreGenGraph6", "graph", 1, True, 900)]
+                ("StoreGenGraph5", "graph", 1, True, 900)]
+        # (StoreGenGraph6.cfg -- 280 468 histories of 6 operations over one size class -- is available for longer runs)
     scripts = []   # (text, key)
     nh = 0
     off = chk.seed % 9973
@@ -217,7 +223,7 @@ def replay_histories(chk, drv, work, tier):
             fh.write("".join(t for t, _ in shard_scripts[sh]))
         jobs.append(("replay", sh, sp, os.path.join(work, "replay-%d.ndjson" % sh), (sh // 2) % 2))
     # the same scripts once more, all in one heap per shard (no fresh process per script)
-    for sh in range(0, nshard, 4 if tier == "quick" else 1):
+    for sh in range(0, nshard, 4 if tier == "quick" else 2):
         sp = os.path.join(work, "scripts-%d.txt" % sh)
         jobs.append(("chain", sh, sp, os.path.join(work, "chain-%d.ndjson" % sh), (sh // 4) % 2))
 
@@ -407,13 +413,13 @@ def run(chk, tier):
     # sources, where the model runs -- which do not depend on the C code -- would be repeated for nothing)
     stages = os.environ.get("C10_STAGES", "models,replay,random").split(",")
     with ThreadPoolExecutor(max_workers=2) as ex:
-        fm = ex.submit(model_checks, chk, tier, work) if "models" in stages else None
+        fm = ex.submit(model_runs, tier, work) if "models" in stages else None
         if "replay" in stages:
             replay_histories(chk, drv, work, tier)
         if "random" in stages:
             random_histories(chk, drv, work, tier)
         if fm:
-            fm.result()
+            model_apply(chk, *fm.result())
     if set(stages) != {"models", "replay", "random"}:
         chk.assumptions.append("PARTIAL RUN: C10_STAGES=%s" % ",".join(stages))
 
